@@ -462,6 +462,7 @@ inline Structure gen_structure(uint64_t seed, const GenOpt& g) {
   if (r.chance(30)) st.info["_exptl.method"] = r.pick(std::vector<std::string>{"X-RAY DIFFRACTION", "SOLUTION NMR"});
   if (r.chance(30)) st.info["_cell.Z_PDB"] = std::to_string(r.range(1, 96));
   if (r.chance(30)) st.resolution = r.range(50, 999) / 100.;
+  st.setup_cell_images();   // again: the NCS operators added above contribute images
   return st;
 }
 
